@@ -1124,6 +1124,10 @@ class Interp:
         for op, rnode in zip(e.ops, e.comparators):
             right = self.ev(rnode, env)
             r = self.compare(type(op), left, right)
+            if isinstance(r, list) and type(r).__name__ == 'BoolVector':
+                if len(e.ops) != 1:
+                    raise Top("chained comparison of vectors")
+                return r                       # a vector of entry-wise comparisons
             if isinstance(r, Pred):
                 result = r if result is True else Pred.conj([result, r])
             else:
@@ -1152,6 +1156,13 @@ class Interp:
                 return False
             raise Top("ordering on symbolic extents")
         if isinstance(a, (Poly, AT, Sym)) or isinstance(b, (Poly, AT, Sym)):
+            for v_, other, flip in ((a, b, False), (b, a, True)):
+                if isinstance(v_, AT) and len(v_.axes) == 1 and isinstance(v_.axes[0], int) and not (isinstance(other, AT) and other.axes != ()):
+                    # a concrete vector against a scalar: the vector of entry-wise comparisons
+                    from .extern import BoolVector
+                    o_ = lift(other)
+                    s_ = sym if not flip else {'>': '<', '<': '>', '>=': '<=', '<=': '>='}[sym]
+                    return BoolVector([p_._cmp(o_, s_) for p_ in v_.entries()])
             pa, pb = lift(a), lift(b)
             return pa._cmp(pb, sym)
         try:
